@@ -174,6 +174,10 @@ func (e *vfEpochEnv) configYAML(override map[string]string) string {
 	}
 	var sb strings.Builder
 	fmt.Fprintf(&sb, "epoch: %d\nversion: 1\ndata:\n  car:\n    uri: %q\n", e.Gen.Num, get("car", e.CarURI))
+	if r := get("filecoin_root", ""); r != "" {
+		// a Filecoin section next to the CAR section (an epoch being moved to Filecoin retrieval)
+		fmt.Fprintf(&sb, "  filecoin:\n    enable: true\n    root_cid: %s\n", r)
+	}
 	fmt.Fprintf(&sb, "indexes:\n")
 	fmt.Fprintf(&sb, "  cid_to_offset_and_size:\n    uri: %q\n", get("cid_to_offset_and_size", e.Paths.CidToOffsetAndSize))
 	fmt.Fprintf(&sb, "  slot_to_cid:\n    uri: %q\n", get("slot_to_cid", e.Paths.SlotToCid))
